@@ -50,18 +50,27 @@ structure Obs (B : Type) where
   probeGate : B → List Nat → SFV.Reg.R B
   probeMeas : B → List Nat → SFV.Reg.R B
   probeDel : B → List Nat → SFV.Reg.R B
+  probeMs : B → List Nat → SFV.Reg.R B
   stateModes : B → List Nat → SFV.Reg.R (List (Nat × Int))
 
 def fockObs : Obs (Fock Int) :=
   { internal := fun s => jarr (s.mm.map.map optNat), nstore := fun s => s.axes.length,
     probeGate := fun s ms => s.gate 0 ms, probeMeas := fun s ms => s.measure ms,
-    probeDel := fun s ms => s.delMode ms, stateModes := fun s ms => s.stateModes ms }
+    probeDel := fun s ms => s.delMode ms, probeMs := fun s _ => .ok s, stateModes := fun s ms => s.stateModes ms }
 
 def psObs (bos : Bool) : Obs (PS Int) :=
   { internal := fun s => jarr (s.active.map optNat), nstore := fun s => s.nlen,
     probeGate := fun s ms => s.gate 0 ms, probeMeas := fun s ms => s.measure ms,
-    probeDel := fun s ms => s.delMode ms,
+    probeDel := fun s ms => s.delMode ms, probeMs := fun s _ => .ok s,
     stateModes := fun s ms => if bos then s.stateModesB ms else s.stateModesG ms }
+
+def bosObs : Obs (PS Int × Bool) :=
+  { internal := fun s => (psObs true).internal s.1, nstore := fun s => s.1.nlen,
+    probeGate := fun s ms => match s.1.gate 0 ms with | .ok x => .ok (x, s.2) | .error e => .error e,
+    probeMeas := fun s ms => match s.1.measure ms with | .ok x => .ok (x, s.2) | .error e => .error e,
+    probeDel := fun s ms => match s.1.delMode ms with | .ok x => .ok (x, s.2) | .error e => .error e,
+    probeMs := fun s ms => match s.1.msSingleShot (ms.headD 0) with | .ok x => .ok (x, s.2) | .error e => .error e,
+    stateModes := fun s ms => s.1.stateModesB ms }
 
 def beJson {B} (o : BackendOps Int B) (ob : Obs B) (b : B) : List (String × Json) :=
   [("gm", natList (o.getModes b)), ("internal", ob.internal b), ("nstore", jnat (ob.nstore b)),
@@ -73,6 +82,7 @@ def probeJson {B} (o : BackendOps Int B) (ob : Obs B) (b : B) (j : Json) : R Jso
   let r := match t with
     | "gate" => ob.probeGate b ms
     | "meas" => ob.probeMeas b ms
+    | "ms" => ob.probeMs b ms
     | _ => ob.probeDel b ms
   pure <| match r with
     | .ok b' => Json.mkObj [("r", Json.str "ok"), ("gm", natList (o.getModes b'))]
@@ -198,7 +208,7 @@ def handler (op : String) (j : Json) : Option (R Json) :=
     match be with
     | "fock" => runHistJson (fockOps Int) fockObs n0 evs
     | "gaussian" => runHistJson (gaussOps Int) (psObs false) n0 evs
-    | "bosonic" => runHistJson (bosOps Int) (psObs true) n0 evs
+    | "bosonic" => runHistJson (bosOps Int) bosObs n0 evs
     | _ => throw s!"unknown backend {be}"
   | "reg.modemap" => some do
     modemapJson (← getNat j "n") (← getArr j "calls")
